@@ -145,7 +145,7 @@ func stageEventsForgedUnderDefaultRoot(x *mon.Ctx) {
 		case !p.expect && accepted:
 			x.Violation(class, p.c.Param, "verify.TdxQuote accepted with altered collateral under the default root of trust", "verify", p.c)
 		case !p.expect && ok:
-			x.Violation(class, p.c.Param, fmt.Sprintf("the library reports %q for a response that Intel's TCB signing key did not sign as served (altered member, altered signature or foreign issuer chain) under the default root of trust (the run then ended with: %s)", p.stage, errs), "none", map[string]any{"case": p.c, "stage_line": p.stage, "verdict_error": errs})
+			x.Violation(class, p.c.Param, fmt.Sprintf("the library reports %q for a response that Intel's TCB signing key did not sign as served (altered member, altered signature or foreign issuer chain) under the default root of trust (the run then ended with: %s)", p.stage, errs), "stage", stageWitness{Case: p.c, Stage: p.stage, Err: errs})
 		case !p.expect:
 			refused++
 		}
